@@ -253,8 +253,27 @@ def run_check(prop, tier, seed):
     failing = []
     kbreak = []
     printed_known = set()
+    stats["variants"] = {}
+    stats["options_used"] = {}
+    stats["item_size_tokens"] = {"<=20": 0, "21-60": 0, "61-150": 0, ">150": 0}
+    stats["diagnostics"] = {}
+    opt_words = ["no_deps", "export", "mock_api", "unimock", "mockall", "delegate_by", "?Send", "debug", "ref", "dyn"]
     for cid, d in results.items():
         c = by_id.get(cid)
+        if c is not None:
+            stats["variants"][c[1]] = stats["variants"].get(c[1], 0) + 1
+            for w in opt_words:
+                if w in c[2]:
+                    stats["options_used"][w] = stats["options_used"].get(w, 0) + 1
+            n_tok = len(c[3].split())
+            b = "<=20" if n_tok <= 20 else "21-60" if n_tok <= 60 else "61-150" if n_tok <= 150 else ">150"
+            stats["item_size_tokens"][b] += 1
+        if d.get("real") == "diag" and d.get("msg"):
+            try:
+                m_ = bytes.fromhex(d["msg"]).decode()[:48]
+            except ValueError:
+                m_ = "?"
+            stats["diagnostics"][m_] = stats["diagnostics"].get(m_, 0) + 1
         key = "%s/%s" % (d.get("model", "-"), d.get("real", "-"))
         stats["outcomes"][key] = stats["outcomes"].get(key, 0) + 1
         mode = cid.rsplit("_", 1)[-1] if "_" in cid else "?"
